@@ -171,17 +171,30 @@ def search(ctx):
             return [{"custkey": InitCustKeyAuthBlock(), "ecc": InitEccAuthBlock(sel),
                      "update": UpdateAuthBlock(code, ver)}[k] for k in kinds]
 
+        cust = bytes(r.randrange(1, 256) for _ in range(10))      # a customer key in the only legal slot (0) of the block payload
+        other_rcp = RecPriv.generate()
+        rec["gen"].clear()
+
         def encs_of(kinds, sel=1):
             out = []
             if "custkey" in kinds:
-                out.append(shared_encs["custkey"] if r.random() < 0.7 else SoftwareCustKeyEncryptor(ckey))
+                x = r.random()
+                out.append(shared_encs["custkey"] if x < 0.5 else SoftwareCustKeyEncryptor(ckey) if x < 0.7
+                           else SoftwareCustKeyEncryptor(ckey, cust, 0))
             if "ecc" in kinds:
+                if r.random() < 0.4:
+                    # ECC recipients of OTHER selectors listed first (encryptors and decryptors): the block of selector
+                    # `sel` must still be wrapped for its own recipient
+                    for o in r.sample([x for x in range(4) if x != sel], r.randrange(1, 3)):
+                        out.append(EccEncryptor(o, other_rcp.public_key) if r.random() < 0.5 else EccDecryptor(o, other_rcp))
                 out.append(shared_encs["ecc"] if sel == 1 and r.random() < 0.7 else EccEncryptor(sel, rcp.public_key))
             return out
 
         def decs_of(kinds, sel=1):
             out = []
             if "custkey" in kinds:
+                # with or without the customer key: a reader that does not know it sees the slot as written, the session
+                # key behind it is the same
                 out.append(SoftwareCustKeyEncryptor(ckey))
             if "ecc" in kinds:
                 out.append(EccDecryptor(sel, rcp))
